@@ -84,6 +84,7 @@ type Obligation struct {
 	nDecl, nAssert, nQ, nReads int
 	origin  *ssa.BasicBlock
 	weakB2I bool
+	lemmaText, lemmaExpect string
 }
 
 type QHyp struct {
@@ -128,6 +129,10 @@ func (a *assertBuf) WriteString(s string) {
 	a.recs = append(a.recs, assertRec{s, o})
 }
 func (a *assertBuf) Len() int { return len(a.recs) }
+
+// WriteGlobal records a fact that is emitted once and must be visible to every
+// query (axioms about declared-once symbols).
+func (a *assertBuf) WriteGlobal(s string) { a.recs = append(a.recs, assertRec{s, nil}) }
 
 type State struct {
 	H     map[string]string // heap name -> current SMT term (a declared constant)
@@ -212,7 +217,7 @@ func (e *Eng) assume(reach, fact string) {
 	if fact == "true" || fact == "" {
 		return
 	}
-	e.pre.asserts.WriteString("(assert " + imp(reach, fact) + ")\n")
+	e.pre.asserts.WriteGlobal("(assert " + imp(reach, fact) + ")\n")
 }
 
 func (e *Eng) warn(format string, a ...interface{}) {
@@ -631,7 +636,7 @@ func (e *Eng) heapTerm(st *State, h *heapInfo) string {
 func (e *Eng) setHeap(st *State, h *heapInfo, term string) {
 	// Bind to a named constant to keep terms small.
 	n := e.fresh("H."+h.name, h.sort)
-	e.pre.asserts.WriteString("(assert (= " + n + " " + term + "))\n")
+	e.pre.asserts.WriteGlobal("(assert (= " + n + " " + term + "))\n")
 	st.H[h.name] = n
 }
 
@@ -682,7 +687,7 @@ func (e *Eng) fid(ref string, k int) string {
 	key := "fidax:" + t
 	if !e.declared[key] {
 		e.declared[key] = true
-		e.pre.asserts.WriteString("(assert (and (< " + t + " 0) (= (fid.ref " + t + ") " + ref + ") (= (fid.k " + t + ") " + fmt.Sprint(k) + ")))\n")
+		e.pre.asserts.WriteGlobal("(assert (and (< " + t + " 0) (= (fid.ref " + t + ") " + ref + ") (= (fid.k " + t + ") " + fmt.Sprint(k) + ")))\n")
 	}
 	return t
 }
